@@ -27,11 +27,23 @@ pub struct ClusterSetup {
 
 /// settled cluster + database t + one ready (authenticated, db selected) session per script node
 pub fn build(setup: &ClusterSetup, script: &Script) -> Result<NetWorld, String> {
-    let mut w = settled_cluster(setup.nodes)?;
+    build_from(settled_cluster(setup.nodes)?, setup, script)
+}
+
+/// as `build`, on a cluster whose nodes were started one after the other with the given process
+/// ids (start times as the nodes' own clocks saw them): with a last node that claims to be the
+/// oldest the primary has moved once, and the node that was primary before is still a member
+pub fn build_pids(setup: &ClusterSetup, script: &Script, pids: &[u128]) -> Result<NetWorld, String> {
+    build_from(crate::props::c07::settled_with_pids(setup.nodes, pids)?, setup, script)
+}
+
+fn build_from(mut w: NetWorld, setup: &ClusterSetup, script: &Script) -> Result<NetWorld, String> {
+    // administrator commands go to whoever is primary
+    let p = (0..w.nodes.len()).find(|i| w.role(*i) == nundb::bo::ClusterRole::Primary).ok_or("no primary after bootstrap")?;
     let mut lines: Vec<String> = vec![format!("auth {} {}", USER, PWD), format!("create-db t tok {}", setup.strategy), "use-db t tok".into()];
     lines.extend(setup.init.iter().cloned());
     let refs: Vec<&str> = lines.iter().map(|s| s.as_str()).collect();
-    w.add_client(0, &refs, false);
+    w.add_client(p, &refs, false);
     w.run_to_quiescence(20000)?;
     w.clients.clear();
     // one session per node that issues commands
